@@ -1,14 +1,25 @@
 ENGINES = [
+ {"name": "sched-dfs", "path": "wbmc/sched.py", "kind_free_text": "stateless choice-tree explorer (deviation-bounded DFS over environment answers) + in-process Ray model wbmc/seams/fakeray.py", "serves_properties": ["C12"]},
+ {"name": "refine-bfs", "path": "wbmc/refine.py", "kind_free_text": "explicit enumeration of steered refinement / restart histories through the real run(), snapshots of run()'s K-point list as ground truth", "serves_properties": ["C10", "C11"]},
  {"name": "space", "path": "wbmc/engine.py", "kind_free_text": "exhaustive enumeration of explicit product spaces, executed on the real code in 16 forked workers; evidence, known-findings and replay handling",
   "serves_properties": []},
 ]
 NOTES = "All checks: /venv/bin/python /verif/check.py <ID> --tier quick|thorough. They import wannierberri from /repo's working tree (no build step)."
 NOT_APPLICABLE = {}
 CHECKS = {
+ "C10": {"level": "model_checking", "engine": "refine-bfs",
+         "technique": "explicit-state exploration of all steered refinement histories through the real run(), oracle on every state",
+         "text": "every history of refinement choices (every subset of adpt_fac live K-points at every iteration) up to depth 2 (quick) / 3 (thorough) is executed through the real run() in the storage modes memory / allow_restart / dump_results, on 1D, 2D, 3D and symmetric (Oh-like, C3z) grids, adpt_mesh 2/3/(2,1,1), adpt_fac 1/2, tensor rank 0/1; after every iteration the integral run() saved and returned is compared with sum_K factor_K*R(K) recomputed from a snapshot of run()'s live K-point list taken at that moment; weights must sum to 1 and all storage modes must agree",
+         "note": "per-K results are scripted generic values (run()'s bookkeeping does not look at them); refinement is steered through the result's max criterion; dead points are never selected; depth and grid size bounded as stated"},
+ "C12": {"level": "model_checking", "engine": "sched-dfs",
+         "technique": "stateless exhaustive exploration of every ray.wait answer sequence (deviation-bounded DFS) on the real run()/process() with an in-process Ray model",
+         "text": "the ray module is replaced by a fake whose only scheduling point is ray.wait; every answer allowed by Ray's contract (ready list in input order, at most num_returns, first-num_returns-ready, timeouts) is enumerated for 2-5 remote tasks x 1-3 reported CPUs x 0/1 refinement iterations x grid/path tabulation; each schedule is one complete run() on the real code and must return the serial result; quick explores all schedules within 2 deviations of the in-order schedule, thorough all of them (<=2 timeouts)",
+         "note": "Ray itself is modelled by its wait/get/put/remote contract (tools/ray_conformance.py compares the model with the installed Ray); worker environment and >5 tasks are outside the bound"},
  "C15": {"level": "exploration",
          "technique": "exhaustive small-scope enumeration (all gap patterns x window edges) against a reference partition model",
          "text": "every sorted band array with <=5 (quick) / <=6 (thorough) bands over a 6-letter gap alphabet, every pair of window edges from the edge alphabet, both include_degen settings, both return modes, Kramers on/off, is run through the real select_window_degen/get_borders/get_bands_in_range/find_degen and compared with a chain-linked reference partition; tabulators are run on systems with exact 2- and 3-fold multiplets",
          "note": "gaps exactly equal to the threshold are outside the alphabet; multiplets larger than the band count explored are not reached"},
 }
 for e in ENGINES:
-    e["serves_properties"] = sorted(CHECKS)
+    if e["name"] == "space":
+        e["serves_properties"] = sorted(CHECKS)
